@@ -529,6 +529,8 @@ def ref_regex(c):
             return None
         return m.group() if sel is None else eval_sel(sel, match_vars(m))
     if f == 're.searchAll':
+        if c.get('lazy') and sel is not None:
+            return [[eval_sel(sel, match_vars(m))] for m in rx.finditer(s)]
         return [m.group() if sel is None else eval_sel(sel, match_vars(m)) for m in rx.finditer(s)]
     if f == 're.split':
         return rx.split(s, c['count'])
@@ -632,6 +634,11 @@ def expr_regex(c):
         return '$.s !~ %s' % rx, data
     if f in ('re.search', 're.searchAll'):
         name = f[3:]
+        if c.get('lazy') and st is not None:
+            # the selector hands back a LAZY sequence built from the match records; it is consumed only after
+            # searchAll has gone through ALL matches (toList / reverse materialise the list of per-match results)
+            tail = ['.toList()', '.reverse().reverse()', '.toList().reverse().reverse()'][c['form'] % 3]
+            return '%s.%s($.s, [$1].select(%s))%s' % (rx, name, st, tail), data
         return ('%s.%s($.s)' % (rx, name)) if st is None else ('%s.%s($.s, %s)' % (rx, name, st)), data
     if f == 're.split':
         cnt = ['', ', $.n', ', %s => $.n' % count_kw('re.split', 'maxSplit')][form // 2 % 3 if c['count'] == 0 else 1 + form // 2 % 2]
@@ -730,6 +737,14 @@ def model_outcome(r, sort):
     if sort and isinstance(v, dict) and 'se' in v:
         v = {'li': sorted(v['se'], key=lambda t: t['s'])}
     return ['v', v]
+
+
+def lazy_wrap(c, mo):
+    """the model evaluates the selector of a `lazy` case itself; the expression wraps every per-match result in a
+    one-element sequence"""
+    if c.get('lazy') and c.get('sel') is not None and mo[0] == 'v' and isinstance(mo[1], dict) and 'li' in mo[1]:
+        return ['v', {'li': [{'li': [x]} for x in mo[1]['li']]}]
+    return mo
 
 
 def same(a, b):
@@ -974,6 +989,8 @@ def gen_regex_cases(rng, n):
                 c['compiled'] = False            # pattern given as a string: no flags
             if f in ('re.search', 're.searchAll') and rng.random() < 0.8:
                 c['sel'] = gen_sel(rng, pat, False)
+                if f == 're.searchAll' and rng.random() < 0.35:
+                    c['lazy'] = True
             if f in ('re.split', 're.replace', 're.replaceBy'):
                 c['count'] = rng.choice([0, 0, 0, 1, 2, 3, -1])
             if f == 're.replace':
@@ -1031,7 +1048,7 @@ def run(env, res):
     if drv is not None:
         for i in range(0, len(cases), 1000):
             rs = drv.ask(dict(p='C19', cases=[case_for_model(c) for c in cases[i:i + 1000]]))['r']
-            models += [model_outcome(r, c['f'] == 'characters') for r, c in zip(rs, cases[i:i + 1000])]
+            models += [lazy_wrap(c, model_outcome(r, c['f'] == 'characters')) for r, c in zip(rs, cases[i:i + 1000])]
     else:
         models = [None] * len(cases)
     reported = set()
